@@ -200,13 +200,35 @@ def check_pow_int_exact(run, ix):
     products beyond 1000 bits, unless a gate `bc*n < M`, M >= 10^4, with an exact from_man_exp(man**n, ...)
     exit comes first; (c) a power that is negated after rounding (i^n = -1, -i) to be rounded with
     negative_rnd[rnd]."""
-    run.rule('P-R1', floor=7, desc='z**n: exact integer path for every power of up to 10^4 bits, on and off the axes')
+    run.rule('P-R1', floor=8, desc='z**n: exact integer path for every power of up to 10^4 bits, on and off the axes')
     f = ix.func(LIBMPC, 'mpc_pow_int')
     # (a) general gate
     gates = [x for x in _walk_own(f.node) if isinstance(x, ast.If)
              and any(isinstance(c, ast.Call) and norm(c.func) == 'complex_int_pow' for c in ast.walk(x))]
+    units = [x for x in gates if _gate(x.test, lambda e: isinstance(e, ast.Name)) is None]
+    gates = [x for x in gates if x not in units]
     if len(gates) != 1:
         raise AnalysisError('mpc_pow_int: exact complex integer path not found')
+    # (a') the bases 2^e (+-1 +- i): the size estimate of the gate below is n for them although every power is a
+    # small Gaussian integer times a power of two; they need an exact branch of their own, for every n
+    ok_u = False
+    for u in units:
+        cs = sorted(norm(c).replace(' ', '') for c in (u.test.values if isinstance(u.test, ast.BoolOp) and
+                                                        isinstance(u.test.op, ast.And) else [u.test]))
+        if cs != sorted(['notde', 'abs(aman)==1', 'abs(bman)==1']) or u.lineno > gates[0].lineno:
+            continue
+        body = ' ; '.join(norm(b, 200) for b in u.body)
+        if 'complex_int_pow(aman, bman, n % 8)' in body and '4 * (n // 8) + int(n * aexp)' in body and \
+                body.count('from_man_exp(') == 2 and all(_single_rounding(c, f) for b in u.body for c in ast.walk(b)
+                                                        if isinstance(c, ast.Call) and norm(c.func) == 'from_man_exp'):
+            ok_u = True
+    if ok_u:
+        run.ok('P-R1', 'mpc_pow_int: 2^e (+-1 +- i) ** n is formed exactly from n % 8 (eighth power = 16), for every n')
+    else:
+        run.fail(Finding('P-R1', LIBMPC, 'mpc_pow_int', norm(gates[0].test), 'for the bases 2^e (+-1 +- i) the size estimate '
+                         'of this gate is n, although the exact power is a one-bit Gaussian integer times a power of two: '
+                         'from the bound on they go through exp(n log z), and mpc(1, 1)**24000 has the imaginary part '
+                         '-1.87e3592 instead of 0', line=gates[0].lineno))
     g = _gate(gates[0].test, lambda e: isinstance(e, ast.Name))
     if g is None:
         raise AnalysisError('mpc_pow_int: the exact path is not gated by a size bound')
